@@ -246,6 +246,21 @@ func zzRun(sc *zzScenario, res *zzResult) {
 		if evm.depth != 0 || evm.tracer.callTree.current != nil {
 			res.Notes = append(res.Notes, "bookkeeping-open")
 		}
+	case "keytree":
+		// two registrations under one root that share (slot, offset) but differ in type id, then a change for the second
+		tr := NewTracer()
+		acct := common.HexToAddress("0xc0de")
+		tA, tB := common.Hash{0xa}, common.Hash{0xb}
+		e1 := tr.SaveStateKey(acct, nil, uint256.NewInt(1), nil, tA, common.Hash{}, []byte("a"))
+		e2 := tr.SaveStateKey(acct, nil, uint256.NewInt(1), nil, tB, common.Hash{}, []byte("b"))
+		res.Notes = append(res.Notes, fmt.Sprint("register a: ", e1, "; register b: ", e2))
+		byName := tr.StateChanges().FindKeyIndices(acct, "b")
+		bySlot, e3 := tr.StateChanges().Slot(acct, uint256.NewInt(1), nil, tB)
+		e4 := tr.SaveStateChange(acct, uint256.NewInt(1), nil, tB, []byte{1})
+		res.Notes = append(res.Notes, fmt.Sprintf("by-name(b) found=%v; by-slot(1,0,typeB) changes=%v err=%v; journal change for b: %v", byName != nil, bySlot != nil, e3, e4))
+		if e2 == nil && byName != nil && e4 != nil {
+			res.Notes = append(res.Notes, "disagree: b is registered and reachable by name, but a change for its (slot, offset, type) is refused")
+		}
 	case "maporder":
 		// a key with 8 children; the list-valued query is repeated: two different answers = nondeterminism observed
 		tr := NewTracer()
